@@ -1,5 +1,9 @@
 """C04 -- assertions never disturb the stack; ?X / !X are complementary (three-valued logic kernel; DESIGN 6/C04)"""
+import os
 import vpcheck as V
+import importlib.util
+_spec = importlib.util.spec_from_file_location("C01", os.path.join(V.VERIF, "checks", "C01.py"))
+C01 = importlib.util.module_from_spec(_spec); _spec.loader.exec_module(C01)
 
 LEVEL_TEXT = ("bounded symbolic model checking of the three-valued predicate kernel (pred_result operators, pred_not/and/or::result, "
               "maybe_invert) lowered from clang IR, for all 3x3 operand outcomes; the stack-preservation clauses for ?(E)/[E]/let are "
@@ -11,15 +15,34 @@ TUS = ['op.cc', 'builtin.cc', 'pred_result.cc', 'stack.cc', 'value.cc', 'scon.cc
 def modules(ctx):
     m = V.Module(ctx, 'c04', TUS, 'c04.cc', ['c04_tables', 'c04_pred_objects', 'c04_invert_pos', 'c04_invert_neg'], native_tus=V.ALL_CORE, native_libs=('-ldl',),
                  empties=('_ZN10value_type13register_type',))
-    return {'c04': m}
+    mb = V.Module(ctx, 'c04b', TUS, 'c04b.cc', ['c04_overload_match', 'c04_overload_mismatch'], native_tus=V.ALL_CORE, native_libs=('-ldl',),
+                  empties=('_ZN10value_type13register_type',))
+    mo = V.Module(ctx, 'c04o', C01.CORE_TUS, 'c01.cc', ['c01_assert', 'c01_subx', 'c01_subx_mut', 'c01_capture'], defs=('VP_T=2', 'VP_MAXC=1'),
+                  native_libs=('-ldl',), native_tus=C01.ALL_CORE, empties=('_ZN10value_type13register_type',))
+    return {'c04': m, 'c04b': mb, 'c04o': mo}
 
 def run(ctx):
-    m = modules(ctx)['c04']
+    mods = modules(ctx)
+    m = mods['c04']
     ctx.bounds.update(operands='all 3x3 pred_result pairs, both polarities of maybe_invert')
     ctx.assumptions += ['operand predicates are stubs returning a symbolic fixed outcome', 'operator new never fails']
     V.run_simple(ctx, m, [('c04_tables', 4, 300, 'all 9 operand pairs'), ('c04_pred_objects', 6, 600, 'all 9 operand pairs'),
                           ('c04_invert_pos', 6, 300, 'all 3 outcomes'), ('c04_invert_neg', 6, 300, 'all 3 outcomes')],
                  object_bits=12)
+    V.run_simple(ctx, modules(ctx)['c04b'] if False else mods['c04b'], [('c04_overload_match', 8, 600, '3 outcomes, matching type'),
+                                        ('c04_overload_mismatch', 8, 600, '3 outcomes, non-matching type')], object_bits=12)
+
+    # the stack-preservation clauses: ?(E) / let / [E] leave the caller's stack intact (operator harnesses of C01)
+    jobs = []
+    for e in ('c01_assert', 'c01_subx', 'c01_subx_mut', 'c01_capture'):
+        if ctx.only and e not in ctx.only:
+            continue
+        valid, total = C01.valid_scenarios(e, 2, 1)
+        for lo in sorted(set(k - k % 4 for k in valid)):
+            hi = min(total, lo + 4)
+            jobs.append(lambda e=e, lo=lo, hi=hi: V.run_entry(ctx, mods['c04o'], e, 7, harness_unwind=24, timeout=600, bounds='T<=2, scenarios [%d,%d)' % (lo, hi),
+                                                              object_bits=14, cdefs=('VP_LO=%d' % lo, 'VP_HI=%d' % hi), label='%s[%d:%d]' % (e, lo, hi), tv_seeds=0))
+    V.run_parallel(jobs, workers=15)
 
 def replay(ctx, js):
     return V.generic_replay(ctx, modules(ctx), js)
